@@ -23,6 +23,7 @@ import (
 	"github.com/buchgr/bazel-remote/v2/cache"
 	pb "github.com/buchgr/bazel-remote/v2/genproto/build/bazel/remote/execution/v2"
 	"github.com/buchgr/bazel-remote/v2/utils/verifhook/vsched"
+	"github.com/buchgr/bazel-remote/v2/utils/verifhook/vsem"
 	"github.com/buchgr/bazel-remote/v2/verifdrv/vlib"
 )
 
@@ -66,16 +67,16 @@ type vfAdmit struct {
 type vfEnv struct {
 	admit       map[string]*vfAdmit
 	everIndexed map[string]bool
-	t      *testing.T
-	sc     *vfScenario
-	dir    string
-	cc     Cache
-	c      *diskCache
-	proxy  *vlib.FakeProxy
-	clock  int
-	hist   []*vfOp
-	viol   [][2]string
-	values map[string][][]byte // key -> legal contents (initial + uploaded), filled by scenario
+	t           *testing.T
+	sc          *vfScenario
+	dir         string
+	cc          Cache
+	c           *diskCache
+	proxy       *vlib.FakeProxy
+	clock       int
+	hist        []*vfOp
+	viol        [][2]string
+	values      map[string][][]byte // key -> legal contents (initial + uploaded), filled by scenario
 	// uploads acknowledged (key -> list of (inv, ret, ok, content))
 	pointChecks int
 }
@@ -221,7 +222,7 @@ type vfScenario struct {
 	// commitRefusal: the reservations of other requests can make the index
 	// refuse a finished upload (internal error 500, documented behaviour)
 	commitRefusal bool
-	atomics  bool
+	atomics       bool
 	// prelife: an earlier life of the directory under another storage mode
 	// (runs on its own cache instance, which is shut down before the one under test starts)
 	prelifeMode string
@@ -732,6 +733,52 @@ func vfScenarios() []*vfScenario {
 					func(e *vfEnv, th string) { e.get(th, cache.CAS, X.hash, -1, 1, true) },
 				},
 				finals: []vfFinal{{cache.CAS, X.hash}}})
+		}
+
+		// a reader on the ENOENT slow path (its file was replaced under it) while the re-uploaded
+		// entry is EVICTED by a third request: a stale list element must not be removed twice
+		{
+			ack15 := strings.Repeat("a7", 32)
+			v15a := vlib.Bytes("s15-v1", 3000, false)
+			v15b := vlib.Bytes("s15-v2", 3100, false)
+			big15 := vlib.Bytes("s15-big", 7000, false) // two blocks: evicts the one-block entry in a two-block cache
+			bk := strings.Repeat("b8", 32)
+			out = append(out, &vfScenario{name: "S15-slowpath-get-vs-overwrite-vs-eviction/" + mode, mode: mode, maxSize: 2 * 4096, pressure: true, commitRefusal: true,
+				setup: func(e *vfEnv) {
+					e.put("SETUP", cache.AC, ack15, v15a)
+					e.legal("ac/"+ack15, v15a)
+					e.legal("raw/"+bk, big15)
+				},
+				threads: []func(*vfEnv, string){
+					func(e *vfEnv, th string) { e.get(th, cache.AC, ack15, -1, 0, false) },
+					func(e *vfEnv, th string) { e.put(th, cache.AC, ack15, v15b) },
+					func(e *vfEnv, th string) { e.put(th, cache.RAW, bk, big15) },
+				},
+				finals: []vfFinal{{cache.AC, ack15}, {cache.RAW, bk}}})
+		}
+
+		// the disk-wait semaphore (throttle shared by all uploads and backend fetches) and the index
+		// mutex: with a single permit, an upload runs against the once-a-minute cache-age poll and
+		// against a second upload; no interleaving may deadlock (lock order: semaphore before mutex)
+		{
+			ack16 := strings.Repeat("c9", 32)
+			v16a := vlib.Bytes("s16-v1", 3000, false)
+			v16b := vlib.Bytes("s16-v2", 3100, false)
+			k16 := strings.Repeat("da", 32)
+			out = append(out, &vfScenario{name: "S16-semaphore-vs-metrics-poll/" + mode, mode: mode, maxSize: 1 << 20,
+				setup: func(e *vfEnv) {
+					e.put("SETUP", cache.AC, ack16, v16a)
+					e.legal("ac/"+ack16, v16a)
+					e.legal("ac/"+ack16, v16b)
+					e.legal("raw/"+k16, v16a)
+					e.c.diskWaitSem = vsem.NewWeighted(1)
+				},
+				threads: []func(*vfEnv, string){
+					func(e *vfEnv, th string) { e.put(th, cache.AC, ack16, v16b) },
+					func(e *vfEnv, th string) { e.c.updateCacheAgeMetric() },
+					func(e *vfEnv, th string) { e.put(th, cache.RAW, k16, v16a) },
+				},
+				finals: []vfFinal{{cache.AC, ack16}, {cache.RAW, k16}}})
 		}
 
 		// an overwrite that arrives WITHOUT a reservation of its own (a backend fetch of unknown
